@@ -10,7 +10,7 @@ from gen import fa as genfa, pda as genpda
 import gambatools.pda_algorithms as pa
 
 ID = 'C09'
-LIMITS = [0, 1, 2, 3, 5, 10, 40, 1000]
+LIMITS = [0, 1, 2, 3, 5, 10, 40, 40, 150, 1000]
 
 
 def _steps(rng, spec, n_steps):
@@ -38,7 +38,7 @@ def gen_cases(rng, tier, rnd):
                 s, rank = genfa.rename(c, rng)
                 cases.append({'spec': s, 'rank': rank, 'abs': hx(c), 'steps': _steps(rng, s, 8)})
     while len(cases) < n:
-        a = genpda.abstract_pda(rng)
+        a = genpda.needle_pda(rng) if rng.random() < 0.06 else genpda.abstract_pda(rng)
         s, rank = genfa.rename(a, rng)
         cases.append({'spec': s, 'rank': rank, 'abs': hx(a), 'steps': _steps(rng, s, 6)})
     return cases
@@ -52,7 +52,7 @@ def run_case(case, env):
     nontrivial = False
     for L, w in case['steps']:
         set_knobs(limit=L)
-        st, val, ticks = call(env, pa.pda_accepts_word, P, w, budget=80_000 + 700 * L * (len(w) + 1))
+        st, val, ticks = call(env, pa.pda_accepts_word, P, w, budget=100_000 + 2500 * (L + 30) * (len(w) + 1))
         out['evals'] += 1
         out['ticks'] += ticks
         site = 'pda_accepts_word'
